@@ -672,6 +672,7 @@ func ReadFunction(env *Zlisp, name string, args []Sexp) (sx Sexp, err error) {
 	default:
 		return SexpNull, WrongType
 	}
+	sx = SexpNull // a text without any expression reads as nil, not as a Go nil
 	env.parser.ResetAddNewInput(bytes.NewBuffer([]byte(str)))
 	env.parser.EndInput()
 	//exp, err := env.parser.ParseExpression(0)
